@@ -89,6 +89,15 @@ func classifyPos(c *Ctx, p *tak.Position) {
 	if over, _ := p.GameOver(); over {
 		c.Count("pos.over")
 	}
+	ng := len(r.WG) + len(r.BG)
+	switch {
+	case ng > 2*p.Size():
+		c.Count("pos.groups>2size")
+	case len(r.WG) > p.Size() || len(r.BG) > p.Size():
+		c.Count("pos.onecolour.groups>size")
+	case ng > p.Size():
+		c.Count("pos.groups>size")
+	}
 }
 
 func genC01(c *Ctx) {
@@ -475,12 +484,15 @@ func genC02(c *Ctx) {
 	for k := 0; k < n; k++ {
 		var p *tak.Position
 		switch x := c.R.Intn(10); {
-		case x < 4:
+		case x < 3:
 			p = roadBoard(c.R, 3+c.R.Intn(6))
 			c.Count("src.roadboard")
-		case x < 6:
+		case x < 5:
 			p = flatBoard(c.R, 3+c.R.Intn(6))
 			c.Count("src.flatboard")
+		case x < 7:
+			p = groupsBoard(c.R, 3+c.R.Intn(6))
+			c.Count("src.groupsboard")
 		default:
 			p = randomPosition(c.R)
 			c.Count("src.random")
